@@ -40,6 +40,63 @@ GOOD = ["a{x:1}", "b c>d{y:2;w:4}", "@media all{e{z:3}}", "@page{margin:0}", "/*
 GOODDECL = ["x:1", "y: f(2) !important", "z:'s;}'", "w:url(u)", "/*c*/", "v: 1px 2px", "q:a(b) c"]
 
 
+# namespace contexts: (prelude, good neighbours valid under it)
+NSCTX = [
+    ('@namespace p "u";', ["p|a{x:1}", "b{y:2}", "*|c p|d{z:3}", "@media all{p|e{w:4}}"]),
+    ('@namespace p "u"; @namespace q "w";', ["p|a{x:1}", "q|b{y:2}", "p|c>q|d{z:3}", "@media all{q|e{w:4}}", "f{v:5}"]),
+    ('@namespace "u";', ["a{x:1}", "b c{y:2}", "@media all{e{w:4}}"]),
+    ('@namespace "d"; @namespace p "u";', ["a{x:1}", "p|b{y:2}", "|c{z:3}", "*|g{t:6}"]),
+    ('@charset "utf-8"; @import "i.css";', ["a{x:1}", "b{y:2}", "@media all{e{w:4}}", "@page{margin:0}"]),
+    ("", ["a{x:1}", "b{y:2}", "@media all{e{w:4}}", "@page{margin:0}"]),
+]
+# statements that are well-formed in themselves but not allowed where they are put
+MISPLACED = {
+    "top": ['@charset "utf-8";', '@charset "ascii";', '@import "a.css";', "@import url(a.css) print;",
+            '@namespace p "v";', '@namespace p "u";', '@namespace q "u";', '@namespace q "v";', '@namespace "v";',
+            '@namespace "u";', '@namespace z "v";', '@namespace z "u";', "@variables {a:1}", "@top-left {x:1}",
+            "@bottom-center{margin:0}", "x:1;", "x:1; y:2;", "color:red !important;"],
+    "media": ["@font-face{font-family:f}", '@import "a.css";', '@namespace p "v";', '@namespace q "u";',
+              '@namespace "v";', '@namespace z "v";', '@charset "utf-8";', "@variables{a:1}", "@top-left{x:1}", "x:1;",
+              "@import url(a.css) print;"],
+    "decl": ['@import "a.css"', '@namespace p "v"', '@namespace "v"', '@namespace q "u"', '@charset "utf-8"',
+             "@media all{a{x:1}}", "@font-face{font-family:f}", "b{y:2}", "@page{margin:0}", "p|b{y:2}", "@variables{a:1}"],
+}
+
+
+def gen_misplaced(rng, n):
+    cases = []
+    for level, junks in MISPLACED.items():
+        for j in junks:                       # every statement kind in every namespace context
+            for pre, goods in NSCTX:
+                cases.append({"kind": "misplaced", "level": level, "pre": pre, "g1": goods[0], "junk": j,
+                              "g2": goods[1 % len(goods)]})
+    for _ in range(n):
+        level = rng.choice(["top", "top", "media", "decl"])
+        pre, goods = rng.choice(NSCTX)
+        cases.append({"kind": "misplaced", "level": level, "pre": pre,
+                      "g1": " ".join(rng.choice(goods) for _ in range(rng.randint(1, 2))),
+                      "junk": " ".join(rng.choice(MISPLACED[level]) for _ in range(rng.randint(1, 2)))
+                      if level != "decl" else rng.choice(MISPLACED[level]),
+                      "g2": " ".join(rng.choice(goods) for _ in range(rng.randint(1, 2)))})
+    return cases
+
+
+def misplaced_texts(case):
+    """(text with the misplaced statement, text without it)"""
+    pre, g1, junk, g2, level = case["pre"], case["g1"], case["junk"], case["g2"], case["level"]
+    if level == "top":
+        return pre + " " + g1 + " " + junk + " " + g2, pre + " " + g1 + " " + g2
+    if level == "media":
+        inner = lambda x: " ".join(r for r in x.split(" ") if not r.startswith("@media"))  # noqa
+        a, b = inner(g1) or "k{x:1}", inner(g2) or "l{y:2}"
+        return (pre + " @media print{" + a + " " + junk + " " + b + "} " + g2,
+                pre + " @media print{" + a + " " + b + "} " + g2)
+    first = g1.split(" ")[0]
+    sel = first[:first.index("{")] if "{" in first and not first.startswith("@") else "s"
+    return (pre + " " + g1 + " " + sel + "{x:1;" + junk + ";z:3} " + g2,
+            pre + " " + g1 + " " + sel + "{x:1;z:3} " + g2)
+
+
 def soup(rng, depth, topfree, n=None, allow_at=True):
     """balanced token soup as text; topfree: no ';' and no {}-group at nesting depth 0"""
     out = []
@@ -280,6 +337,30 @@ def _rules(text):
     return [r.cssText for r in sh.cssRules]
 
 
+def _model(text):
+    """the object model incl. namespace bindings: (rule tree with (URI, name) of every selector's element and the
+    declared properties, prefix registry of the sheet)"""
+    import css_parser
+    import logging
+    css_parser.log.setLevel(logging.FATAL)
+    sh = css_parser.parseString(text, validate=False)
+
+    def walk(rules):
+        out = []
+        for r in rules:
+            if r.type == r.STYLE_RULE:
+                out.append(["style", r.cssText, [list(x.element) if x.element else None for x in r.selectorList],
+                            [(q.name, q.value, q.priority) for q in r.style.getProperties(all=True)]])
+            elif r.type == r.MEDIA_RULE:
+                out.append(["media", r.media.mediaText, walk(r.cssRules)])
+            elif r.type == r.NAMESPACE_RULE:
+                out.append(["namespace", r.prefix, r.namespaceURI])
+            else:
+                out.append([r.type, r.cssText])
+        return out
+    return [walk(sh.cssRules), sorted((str(k), v) for k, v in sh.namespaces.items())]
+
+
 def _props(text):
     import css_parser
     import logging
@@ -311,11 +392,12 @@ def oracle(case):
     """returns None or (description, sig_text). case = dict(kind=..., g1, junk, g2)"""
     k, g1, junk, g2 = case["kind"], case["g1"], case["junk"], case["g2"]
     try:
+        pre = case.get("pre", "")
         if k == "top":
-            with_, without = _rules(g1 + " " + junk + " " + g2), _rules(g1 + " " + g2)
+            with_, without = _rules(pre + " " + g1 + " " + junk + " " + g2), _rules(pre + " " + g1 + " " + g2)
         elif k == "media":
-            with_ = _rules("@media print{" + g1 + " " + junk + " " + g2 + "}")
-            without = _rules("@media print{" + g1 + " " + g2 + "}")
+            with_ = _rules(pre + " @media print{" + g1 + " " + junk + " " + g2 + "}")
+            without = _rules(pre + " @media print{" + g1 + " " + g2 + "}")
         elif k == "decl":
             with_, without = _props("a{" + g1 + ";" + junk + ";" + g2 + "}"), _props("a{" + g1 + ";" + g2 + "}")
         elif k == "unknown":
@@ -342,6 +424,15 @@ def oracle(case):
                     what = "unknown at-rule with a nested at-keyword is not preserved"
                 return (what, json.dumps(case, sort_keys=True))
             return None
+        elif k == "misplaced":
+            tw, to = misplaced_texts(case)
+            mw, mo = _model(tw), _model(to)
+            if mw != mo:
+                what = "rules" if [x[:2] for x in mw[0]] != [x[:2] for x in mo[0]] else \
+                    "namespace bindings" if mw[1] != mo[1] or mw[0] != mo[0] else "?"
+                return ("a well-formed but misplaced statement is not skipped as a unit (%s level, %s differ): with %r, "
+                        "without %r" % (case["level"], what, mw, mo), json.dumps(case, sort_keys=True))
+            return None
         elif k == "order":
             with_, without = _rules(g1 + " " + junk + " " + g2), _rules(g1 + " " + g2)
             if with_ != without:
@@ -350,6 +441,16 @@ def oracle(case):
     except Exception as e:  # noqa
         return ("parser raised %s on a (good, junk, good) triple" % type(e).__name__, json.dumps(case, sort_keys=True))
     if with_ == without:
+        if k in ("top", "media"):
+            pre = case.get("pre", "")
+            wrap = (lambda x: pre + " " + x) if k == "top" else (lambda x: pre + " @media print{" + x + "}")
+            mw, mo = _model(wrap(g1 + " " + junk + " " + g2)), _model(wrap(g1 + " " + g2))
+            if mw != mo:
+                if junk.lstrip().lower().startswith(EMPTY_KEEPERS):
+                    return ("malformed @media/@page/@font-face/@variables statement is kept as an empty rule object",
+                            json.dumps(case, sort_keys=True))
+                return ("namespace bindings of the neighbours of a junk statement changed: with %r, without %r" % (mw, mo),
+                        json.dumps(case, sort_keys=True))
         return None
     first = junk.lstrip().lower()
     if k in ("top", "media") and first.startswith(EMPTY_KEEPERS) and \
@@ -386,6 +487,13 @@ def gen_triples(rng, n):
             body = soup(rng, 2, True, allow_at=rng.random() < 0.15)
             end = ";" if rng.random() < 0.5 else "{" + soup(rng, 2, False, allow_at=False) + "}"
             cases.append({"kind": "unknown", "g1": rng.choice(GOOD), "junk": "@unk " + body + end, "g2": rng.choice(GOOD)})
+    # token-soup junk between neighbours that use namespace prefixes
+    for _ in range(n // 6):
+        pre, goods = rng.choice(NSCTX[:4])
+        kind = rng.choice(["top", "media"])
+        g = [x for x in goods if kind == "top" or not x.startswith("@")]
+        cases.append({"kind": kind, "pre": pre, "g1": rng.choice(g), "junk": junk_statement(rng), "g2": rng.choice(g)})
+    cases += gen_misplaced(rng, n // 3)
     return cases
 
 
@@ -576,7 +684,7 @@ def replay(ctx, path):
     rep = json.loads(open(path).read())
     bad = 0
     for v in rep.get("violations", []):
-        w = {k: v["witness"][k] for k in ("kind", "g1", "junk", "g2")}
+        w = {k: v["witness"][k] for k in ("kind", "g1", "junk", "g2", "pre", "level") if k in v["witness"]}
         r = oracle(w)
         print("replay %s -> %s" % (json.dumps(w), r[0] if r else "holds"))
         bad += bool(r)
